@@ -282,9 +282,10 @@ func gaussianBigScenario() engine.Scenario {
 				return
 			}
 			if new(big.Int).Abs(v).Cmp(maxAbs) > 0 {
-				if j == 0 && overBound && sign == 0 && v.Sign() < 0 {
-					// known input class: an over-the-bound draw with negative sign is accepted (positive ones are redrawn)
-					c.Fail(sigBigNegative, "%s: enumerated first draw beyond the bound with negative sign is returned: %s, |.| > bound %s", cfg.name, v, maxAbs)
+				if v.Sign() < 0 {
+					// known class: on this path a draw is compared with the bound after the sign is applied, so negative
+					// draws are never redrawn (positive ones are); keep judging the other coefficients
+					c.Fail(sigBigNegative, "%s: negative draw beyond the bound is returned: coefficient %d = %s, |.| > bound %s (enumerated first draw over the bound: %v)", cfg.name, j, v, maxAbs, overBound && sign == 0)
 					continue
 				}
 				c.Fail("C17/gaussian/bignum-path/out-of-support", "%s: coefficient %d = %s, |.| > bound %s", cfg.name, j, v, maxAbs)
